@@ -415,6 +415,51 @@ func scalarEvents(tr *hx.Trace, r *hx.Rng, thorough bool) {
 		modm.VerifReduce(&rr)
 		emit("Reduce", map[string]interface{}{"a": mLimbs(&in), "out": mLimbs(&rr)})
 	}
+	// barrettReduce on operands chosen INDEPENDENTLY (q1 and r1 are two random 264-bit numbers, not the halves of one 512-bit
+	// number): the result then depends on the truncated product, the cuts and the borrow chains - it is predicted limb for
+	// limb by the limb-level transcription (ModmLimbsBig); also on consistent pairs
+	{
+		w := uint(56)
+		if modm.LimbSize != 5 {
+			w = 30
+		}
+		fill := func(v *big.Int) modm.Bignum256 { // limbs of a 264-bit number, the top limb takes the rest
+			var out modm.Bignum256
+			mask := new(big.Int).Sub(new(big.Int).Lsh(big.NewInt(1), w), big.NewInt(1))
+			for i := 0; i < modm.LimbSize; i++ {
+				l := new(big.Int).Rsh(v, w*uint(i))
+				if i < modm.LimbSize-1 {
+					l.And(l, mask)
+				}
+				out[i] = modm.Element(l.Uint64())
+			}
+			return out
+		}
+		nb := 60
+		if thorough {
+			nb = 1500
+		}
+		two264 := new(big.Int).Lsh(big.NewInt(1), 264)
+		for i := 0; i < nb; i++ {
+			var qv, rv *big.Int
+			switch i % 4 {
+			case 0: // consistent: the two halves of one 512-bit number
+				x := refmodel.FromLE(r.Bytes(64))
+				qv, rv = new(big.Int).Rsh(x, 248), new(big.Int).Mod(x, two264)
+			case 1: // extreme
+				qv = new(big.Int).Sub(two264, big.NewInt(1))
+				rv = refmodel.FromLE(r.Bytes(33))
+			default:
+				qv, rv = refmodel.FromLE(r.Bytes(33)), refmodel.FromLE(r.Bytes(33))
+			}
+			q1, r1 := fill(qv), fill(rv)
+			var o modm.Bignum256
+			if guard(tr, "barrettReduce", func() { modm.VerifBarrettReduce(&o, &q1, &r1) }) {
+				continue
+			}
+			emit("Barrett", map[string]interface{}{"a": mLimbs(&q1), "b": mLimbs(&r1), "out": mLimbs(&o), "consistent": i%4 == 0})
+		}
+	}
 	// recodings
 	var w4 []*big.Int
 	for pos := 0; pos < 64; pos += 3 {
